@@ -339,6 +339,22 @@ func c04OwnCountryBlanked(c *core.Ctx) {
 		ld := core.NewLocalDefs(info, fd.Decl.Body)
 		isCountry := func(e ast.Expr) bool {
 			e = ast.Unparen(ld.Resolve(ast.Unparen(e), 3))
+			// tc.Country.Code() / .String() / a conversion: the same text
+			for i := 0; i < 3; i++ {
+				call, ok := e.(*ast.CallExpr)
+				if !ok {
+					break
+				}
+				if tv, isT := info.Types[call.Fun]; isT && tv.IsType() && len(call.Args) == 1 {
+					e = ast.Unparen(ld.Resolve(ast.Unparen(call.Args[0]), 3))
+					continue
+				}
+				se, isSel := ast.Unparen(call.Fun).(*ast.SelectorExpr)
+				if !isSel || len(call.Args) != 0 || (se.Sel.Name != "Code" && se.Sel.Name != "String" && se.Sel.Name != "Tax") {
+					break
+				}
+				e = ast.Unparen(ld.Resolve(ast.Unparen(se.X), 3))
+			}
 			return core.FieldOf(info, e) == countryField
 		}
 		mentions := func(e ast.Node) bool {
